@@ -117,6 +117,7 @@ def cqopt(x):
 
 
 _LAY = {"on": False, "k": 0}   # set per case by execute(): store tensors as non-contiguous views (robustness audit)
+_ENTRY = {"argv": False}       # set per case by execute(): call the console function the way the installed script does
 
 
 def relayout(x, k):
@@ -290,7 +291,13 @@ def run_cmd(name, args, pool=None, capture=()):
     try:
         with warnings.catch_warnings(), contextlib.redirect_stdout(so), contextlib.redirect_stderr(se):
             warnings.simplefilter("ignore")
-            rc = getattr(cmd, name)([str(a) for a in args])
+            if _ENTRY["argv"]:
+                # the console script calls the function without arguments: they are taken from sys.argv
+                import sys
+                with mock.patch.object(sys, "argv", [name] + [str(a) for a in args]):
+                    rc = getattr(cmd, name)()
+            else:
+                rc = getattr(cmd, name)([str(a) for a in args])
     except Exception as e:  # noqa: BLE001
         exc = exc_kind(e)
     finally:
@@ -373,6 +380,8 @@ def g_strays(rng, pre, suf, tensors=True):
 
 
 def g_pool(rng, case):
+    if rng.random() < 0.12:
+        case["argv"] = True      # entry point: arguments through sys.argv, as the installed console script passes them
     r = rng.random()
     if r < 0.45:
         case["workers"] = 0
@@ -936,6 +945,8 @@ def g_er(rng):
         case["rep"] = [[f(a), f(b)] for a, b in rep]
         case["ign"] = [f(x) for x in ign]
         case["shift"] = sh
+    if rng.random() < 0.12:
+        case["argv"] = True
     return g_layout(rng, case, 0.25)
 
 
@@ -1007,6 +1018,12 @@ def x_er(chk, sc, case):
     res, text = _er_run(case, root, case["batch"], "1")
     cnt = {"er_outcome=" + str(res["exc"]): 1, "er_costs=" + str(case["costs"]): 1,
            "er_id_shift=" + str(case.get("shift", 0)): 1}
+    both = set(case["ref"]) & set(case["hyp"])
+    every = set(case["ref"]) | set(case["hyp"])
+    if case["distances"] and not case["per_utt"] and case["batch"] and len(both) > case["batch"] and len(both) % case["batch"]:
+        cnt["er_audit=distances total, several batches, last one shorter"] = 1
+    if case["warn"] and any(v != u and v.startswith(u) and ((u in both) != (v in both)) for u in every for v in every):
+        cnt["er_audit=--warn-missing, an id and its extension, one of them unpaired"] = 1
     terms, meta = [], []
     # the pairing and the filtering, read off the property (for the oracle table and the spec term)
     common = sorted(set(case["ref"]) & set(case["hyp"]))
@@ -1207,6 +1224,13 @@ def x_subset(chk, sc, case):
         args += ["--seed", case["seed"]]
     res = run_cmd("subset_torch_spect_data_dir", args, seed)
     cnt = {"subset_outcome=" + str(res["exc"]): 1, "subset_crit=" + case["crit"]: 1}
+    if case["crit"].split("_")[0] in ("first", "last"):
+        so = sorted(case["lens"])
+        kk = case["param"] if case["crit"].endswith("_n") else int(len(so) * case["param"])
+        if case["crit"].startswith("last"):
+            kk = len(so) - kk
+        if 0 < kk < len(so) and so[kk].startswith(so[kk - 1]):
+            cnt["subset_audit=first/last cut between an id and its extension"] = 1
     n = len(case["lens"])
     kind, par = case["crit"], case["param"]
     perm = "[]"
@@ -1696,10 +1720,11 @@ def gen_cases(chk):
 
 def execute(chk, sc, case):
     _LAY["on"], _LAY["k"] = bool(case.get("views")), int(case.get("views") or 0)
+    _ENTRY["argv"] = bool(case.get("argv"))
     try:
         return EXEC[case["kind"]](chk, sc, case)
     finally:
-        _LAY["on"] = False
+        _LAY["on"] = _ENTRY["argv"] = False
 
 
 def _cands(case):
